@@ -19,14 +19,12 @@ pub struct Lexeme {
 }
 
 fn op_of(code: u8) -> Option<usize> {
-    let mut i = 0;
-    while i < N_OPS {
-        if REF_OPS[i].code == code {
-            return Some(i);
-        }
-        i += 1;
+    let i = CODE2IDX[code as usize];
+    if i == 255 {
+        None
+    } else {
+        Some(i as usize)
     }
-    None
 }
 
 fn le(buf: &[u8], at: usize, n: usize) -> Option<u64> {
@@ -43,17 +41,18 @@ fn le(buf: &[u8], at: usize, n: usize) -> Option<u64> {
 }
 
 /// position of the next b'\n' at or after `at` (the line is buf[at..pos])
-fn line_end(buf: &[u8], at: usize) -> Option<usize> {
-    let mut i = at;
+fn line_end(buf: &[u8], at: usize, maxline: usize) -> Option<usize> {
+    // fixed trip count (`maxline` is concrete at every call site): CBMC unrolls exactly that many iterations
+    let mut found: Option<usize> = None;
     let mut steps = 0;
-    while i < buf.len() && steps < MAXLINE {
-        if buf[i] == b'\n' {
-            return Some(i);
+    while steps < maxline {
+        let i = at + steps;
+        if found.is_none() && i < buf.len() && buf[i] == b'\n' {
+            found = Some(i);
         }
-        i += 1;
         steps += 1;
     }
-    None
+    found
 }
 
 fn is_digit(b: u8) -> bool {
@@ -134,7 +133,7 @@ fn quoted_ok(s: &[u8]) -> bool {
             i += 2;
             continue;
         }
-        if inner[i] == q || inner[i] == b'\r' {
+        if inner[i] == q {
             return false;
         }
         i += 1;
@@ -239,15 +238,53 @@ fn eq_ci(a: &[u8], b: &[u8]) -> bool {
 }
 
 fn utf8_ok(s: &[u8]) -> bool {
+    // ASCII fast path with a plain bounded loop (std's validator is expensive under CBMC)
+    let mut ascii = true;
+    let mut i = 0;
+    while i < s.len() {
+        if s[i] >= 0x80 {
+            ascii = false;
+        }
+        i += 1;
+    }
+    if ascii {
+        return true;
+    }
+    non_ascii_utf8_ok(s)
+}
+
+#[cfg(test)]
+fn non_ascii_utf8_ok(s: &[u8]) -> bool {
     std::str::from_utf8(s).is_ok()
+}
+/// Under Kani a non-ASCII text payload is reported as not well formed rather than validated: the generator's
+/// alphabets are ASCII (ENT, assumption A2), so this can only raise an alarm, never hide one; the native replay
+/// (which runs the full validator) then decides.
+#[cfg(not(test))]
+fn non_ascii_utf8_ok(_s: &[u8]) -> bool {
+    false
 }
 
 /// Lex one opcode with its argument at `pos`.  `None` = the stream is not well formed there.
 pub fn lex_one(buf: &[u8], pos: usize) -> Option<Lexeme> {
+    lex_one_bounded(buf, pos, MAXLINE)
+}
+
+/// as `lex_one`, with newline-terminated arguments limited to `maxline` bytes (keeps Kani's unwinding small)
+pub fn lex_one_bounded(buf: &[u8], pos: usize, maxline: usize) -> Option<Lexeme> {
     if pos >= buf.len() {
         return None;
     }
     let op = op_of(buf[pos])?;
+    lex_with_op(buf, pos, op, maxline)
+}
+
+/// lex the argument of opcode `op` (index into REF_OPS) whose opcode byte is at `pos`; the caller has checked
+/// the opcode byte.  With a concrete `op` only the matching argument reader is explored under Kani.
+pub fn lex_with_op(buf: &[u8], pos: usize, op: usize, maxline: usize) -> Option<Lexeme> {
+    if pos >= buf.len() {
+        return None;
+    }
     let a = pos + 1;
     let kind = REF_OPS[op].arg;
     let mut num: u64 = 0;
@@ -306,35 +343,35 @@ pub fn lex_one(buf: &[u8], pos: usize) -> Option<Lexeme> {
             return None;
         }
     } else if kind == A_STRINGNL {
-        let e = line_end(buf, a)?;
+        let e = line_end(buf, a, maxline)?;
         if !quoted_ok(&buf[a..e]) {
             return None;
         }
         end = e + 1;
     } else if kind == A_STRINGNL_NOESCAPE {
-        let e = line_end(buf, a)?;
+        let e = line_end(buf, a, maxline)?;
         if !escape_ok(&buf[a..e]) {
             return None;
         }
         end = e + 1;
     } else if kind == A_STRINGNL_NOESCAPE_PAIR {
-        let e1 = line_end(buf, a)?;
+        let e1 = line_end(buf, a, maxline)?;
         if !escape_ok(&buf[a..e1]) {
             return None;
         }
-        let e2 = line_end(buf, e1 + 1)?;
+        let e2 = line_end(buf, e1 + 1, maxline)?;
         if !escape_ok(&buf[e1 + 1..e2]) {
             return None;
         }
         end = e2 + 1;
     } else if kind == A_UNICODESTRINGNL {
-        let e = line_end(buf, a)?;
+        let e = line_end(buf, a, maxline)?;
         if !raw_unicode_ok(&buf[a..e]) || !utf8_ok(&buf[a..e]) {
             return None;
         }
         end = e + 1;
     } else if kind == A_DECIMALNL_SHORT {
-        let e = line_end(buf, a)?;
+        let e = line_end(buf, a, maxline)?;
         let (neg, v) = parse_decimal(&buf[a..e])?;
         num = v;
         if neg && v != 0 && (op == I_GET || op == I_PUT) {
@@ -342,7 +379,7 @@ pub fn lex_one(buf: &[u8], pos: usize) -> Option<Lexeme> {
         }
         end = e + 1;
     } else if kind == A_DECIMALNL_LONG {
-        let e = line_end(buf, a)?;
+        let e = line_end(buf, a, maxline)?;
         let mut s = &buf[a..e];
         if !s.is_empty() && s[s.len() - 1] == b'L' {
             s = &s[..s.len() - 1];
@@ -350,7 +387,7 @@ pub fn lex_one(buf: &[u8], pos: usize) -> Option<Lexeme> {
         parse_decimal(s)?;
         end = e + 1;
     } else if kind == A_FLOATNL {
-        let e = line_end(buf, a)?;
+        let e = line_end(buf, a, maxline)?;
         if !float_ok(&buf[a..e]) {
             return None;
         }
